@@ -165,6 +165,9 @@ def build(t, V):
             return F.heaviside_smooth(a, float(par))
         if name == "characteristic":
             return F.characteristic_function(float(par), a)
+        if name == "safe_power":
+            pw = int(par[0]) if float(par[0]) == int(par[0]) and par[3] == "int" else float(par[0])
+            return F.safe_power(pw, float(par[1]), float(par[2]), a)
         return getattr(F, name)(a)
     if op == "l2":
         return F.l2_norm(int(t[1]), build(t[2], V))
@@ -187,6 +190,23 @@ class Lib:
                       "cosh": m.cosh, "tanh": m.tanh, "arcsinh": m.asinh,
                       "arccosh": m.acosh, "arctanh": m.atanh, "sqrt": m.sqrt}
             self.pi = math.pi
+        elif kind == "frac":
+            self.c = Fraction
+
+            def fsqrt(q):
+                q = Fraction(q)
+                a, b = math.isqrt(q.numerator) if q.numerator >= 0 else -1, math.isqrt(q.denominator)
+                if a < 0 or a * a != q.numerator or b * b != q.denominator:
+                    raise Reject()
+                return Fraction(a, b)
+
+            def no(_):
+                raise Reject()
+            self.f = {k: no for k in ("exp", "log", "sin", "cos", "tan", "arcsin", "arccos",
+                                      "arctan", "sinh", "cosh", "tanh", "arcsinh", "arccosh",
+                                      "arctanh")}
+            self.f["sqrt"] = fsqrt
+            self.pi = None
         else:
             self.c = lambda v: mp.mpf(v) if not isinstance(v, Fraction) else (
                 mp.mpf(v.numerator) / mp.mpf(v.denominator))
@@ -328,6 +348,13 @@ def plain(t, X, L, check):
                 elif name == "characteristic":
                     need(abs(abs(a) - par) >= MARGIN)
                     r = L.c(1) if abs(a) <= par else L.c(0)
+                elif name == "safe_power":
+                    pw, zv, tol = float(par[0]), par[1], par[2]
+                    need(abs(abs(a) - tol) >= MARGIN)
+                    if abs(a) > tol:
+                        r = power(a, L.c(pw))
+                    else:
+                        r = L.c(zv)
                 elif name == "heaviside_smooth":
                     need(par > 0)
                     r = L.c(0.5) * (1 + 2 / L.pi * L.f["arctan"](a / L.c(par)))
@@ -395,6 +422,17 @@ def in_domain(tree, X):
             plain(s, X, L, True)
         return True
     except (Reject, OverflowError, ValueError, ZeroDivisionError, IndexError):
+        return False
+
+
+def q_executable(tree, X):
+    """The tree can be executed exactly over Q by the model instance QOpsS: every l2_norm
+    block of dimension > 1 has a perfect-square sum of squares, no zero divisor."""
+    L = Lib("frac")
+    try:
+        plain(tree, [[Fraction(v) for v in x] for x in X], L, False)
+        return True
+    except (Reject, ZeroDivisionError, OverflowError, ValueError, TypeError, IndexError):
         return False
 
 
@@ -577,7 +615,7 @@ class Gen:
             dim = r.choice([1, 2, 3]) if trans else 1
             return ["l2", dim, self.tree(n * dim, d - 1)]
         # library functions
-        names = list(FUN_RAT) + (list(FUN_TRANS) * 3 if trans else [])
+        names = list(FUN_RAT) + (list(FUN_TRANS) * 3 + ["safe_power"] * 4 if trans else [])
         name = r.choice(names)
         a = sub()
         par = None
@@ -588,6 +626,12 @@ class Gen:
             par = r.choice([0.25, 0.5, 1.0])
         elif name == "heaviside_smooth":
             par = r.choice([1e-3, 0.125, 0.5])
+        elif name == "safe_power":
+            pw = r.choice([-1, 2, 3, -2, 0.5, -0.5, 1.5])
+            par = [pw, r.choice([0.0, 1.0, 0.75]), r.choice([1e-8, 0.125, 0.5]),
+                   "int" if pw == int(pw) and r.random() < 0.5 else "float"]
+            if pw != int(pw) and w:
+                a = self.positive(a)
         if name in ("log",) and w:
             a = self.positive(a)
         elif name in ("arcsin", "arccos", "arctanh", "tan") and w:
@@ -599,22 +643,111 @@ class Gen:
         return ["fun", name, par, a]
 
 
+PYTH = {2: [(3, 4), (5, 12), (8, 15), (4, 3)], 3: [(1, 2, 2), (2, 3, 6), (2, 2, 1), (6, 2, 3)]}
+
+
+def gen_l2_case(rng):
+    """l2_norm(dim > 1) on blocks with exact zero components, axis-aligned, Pythagorean
+    and all-zero blocks (the latter outside the smooth domain: tie only)."""
+    dim = rng.choice([2, 3])
+    nb = rng.randint(1, 3)
+    v0 = []
+    for _ in range(nb):
+        s = dy(rng, -3, 3, 4, nonzero=True)
+        pat = rng.choice(["axis", "axis", "pyth", "zero", "onezero"])
+        if pat == "axis":
+            blk = [0.0] * dim
+            blk[rng.randrange(dim)] = s
+        elif pat == "pyth":
+            blk = [s * c * rng.choice([1, -1]) for c in rng.choice(PYTH[dim])]
+        elif pat == "zero":
+            blk = [0.0] * dim
+        else:
+            a, b = rng.choice(PYTH[2])
+            blk = [s * a, s * b] + ([0.0] if dim == 3 else [])
+            if dim == 3:
+                rng.shuffle(blk)
+            else:
+                blk = [s * a, 0.0] if rng.random() < 0.5 else [0.0, s * b]
+        v0 += blk
+    X = [v0, [dy(rng, -3, 3, 8, nonzero=True) for _ in range(nb)]]
+    V = rng.choice([["var", 0], ["neg", ["var", 0]], ["mulk", ["var", 0], ["s", dy(rng, -2, 2, 4, nonzero=True)]],
+                    ["rmulk", ["var", 0], ["s", 2, "int"]]])
+    T = ["l2", dim, V]
+    w = rng.random()
+    if w < 0.25:
+        T = ["mul", T, ["var", 1]]
+    elif w < 0.45:
+        T = ["addk", ["mul", T, T], ["s", 0.5]]
+    elif w < 0.6:
+        T = ["sub", ["var", 1], T]
+    elif w < 0.7:
+        T = ["matmul", {"shape": [1, nb], "rows": [[[j, 1.0] for j in range(nb)]], "fmt": "csr"}, T]
+    return {"kind": "rat", "vars": X, "tree": T}
+
+
 def gen_case(rng, kind, tier):
+    if kind == "rat" and rng.random() < 0.12:
+        for _ in range(50):
+            c = gen_l2_case(rng)
+            if q_executable(c["tree"], c["vars"]):
+                return c
     maxdepth = (5 if kind == "rat" else 4) if tier == "quick" else (6 if kind == "rat" else 5)
     for _ in range(200):
         nv = rng.randint(1, 3)
         sizes = [rng.randint(1, 4) for _ in range(nv)]
         if rng.random() < 0.5:
             sizes = [sizes[0]] * nv
-        X = [[dy(rng, -3, 3, 8, nonzero=True) for _ in range(s)] for s in sizes]
+        nz = rng.random() < 0.7
+        X = [[dy(rng, -3, 3, 8, nonzero=nz or rng.random() < 0.6) for _ in range(s)] for s in sizes]
         g = Gen(rng, kind, sizes, maxdepth)
         n = rng.choice(sizes) if rng.random() < 0.8 else rng.randint(1, 4)
         tree = g.tree(n, rng.randint(2, maxdepth))
         if sum(1 for _ in subtrees(tree)) > 60:
             continue
-        if in_domain(tree, X):
+        if in_domain(tree, X) and (kind != "rat" or q_executable(tree, X)):
             return {"kind": kind, "vars": X, "tree": tree}
     return {"kind": kind, "vars": [[1.5, -0.5]], "tree": ["mul", ["var", 0], ["var", 0]]}
+
+
+def gen_sp_case(rng):
+    """safe_power on a vector with identity Jacobian: entries above, below and at zero;
+    integer powers go to the Coq tie, all to the oracle."""
+    tol = rng.choice([1e-8, 0.125, 0.5, 0.0])
+    n = rng.randint(1, 5)
+    pw = rng.choice([-1, -1, 2, 3, -2, 1, 0, 0.5, -0.5, 1.5])
+    xs = []
+    while len(xs) < n:
+        v = rng.choice([0.0, dy(rng, -3, 3, 8), dy(rng, 0, 3, 8), dy(rng, -0.4, 0.4, 64)])
+        if abs(abs(v) - tol) < MARGIN and not (v == 0.0 and tol < 1e-6):
+            continue
+        if pw != int(pw) and abs(v) > tol and v < MARGIN:
+            continue
+        if pw <= 0 and tol < 1e-6 and v != 0.0 and abs(v) < MARGIN:
+            continue
+        xs.append(v)
+    return {"kind": "sp", "x": xs, "power": pw, "int_type": rng.random() < 0.5,
+            "zero_val": rng.choice([0.0, 1.0, 0.75, -2.0]), "tol": tol}
+
+
+def gen_set_case(rng):
+    """a[key] = b on AdArrays (rows of value and Jacobian are replaced)."""
+    n = rng.randint(1, 5)
+    sizes = [n, n]
+    X = [[dy(rng, -3, 3, 8, nonzero=True) for _ in range(n)] for _ in range(2)]
+    ta = rng.choice([["var", 0], ["mul", ["var", 0], ["var", 1]], ["addk", ["var", 1], ["s", 1.5]]])
+    m = rng.randint(1, n)
+    kind = rng.choice(["int", "slice", "idx"])
+    if kind == "int":
+        key, m = ["int", rng.randrange(-n, n)], 1
+    elif kind == "slice":
+        start = rng.randrange(0, n - m + 1)
+        key = ["slice", start, start + m, 1]
+    else:
+        key = ["idx", rng.sample(range(n), m)]
+    tb = rng.choice([["slice", ["idx", [rng.randrange(n) for _ in range(m)]], ["mul", ["var", 1], ["var", 1]]],
+                     ["slice", ["idx", [rng.randrange(n) for _ in range(m)]], ["rdivk", ["var", 0], ["s", 2.0]]]])
+    return {"kind": "set", "vars": X, "a": ta, "b": tb, "key": key}
 
 
 # corner cases that are always part of the stream (index into this list)
@@ -674,6 +807,22 @@ DIRECTED = [
      "tree": ["mul", ["fun", "abs", None, ["var", 0]], ["fun", "heaviside", 0.5, ["var", 0]]]},
     {"kind": "rat", "vars": [[1.0, -0.125, 3.0]],
      "tree": ["add", ["fun", "characteristic", 0.25, ["var", 0]], ["l2", 1, ["var", 0]]]},
+    # l2_norm blocks with exact zero components / all-zero block (executed over Q)
+    {"kind": "rat", "vars": [[3.0, 0.0, 0.0, -2.5], [1.0, 2.0]],
+     "tree": ["mul", ["l2", 2, ["var", 0]], ["var", 1]]},
+    {"kind": "rat", "vars": [[0.0, 1.5, 0.0, 2.0, 3.0, 6.0], [1.0, 2.0]],
+     "tree": ["l2", 3, ["var", 0]]},
+    {"kind": "rat", "vars": [[0.0, 0.0, 0.0, 3.0, 0.0, 4.0], [1.0, 2.0]],
+     "tree": ["l2", 3, ["neg", ["var", 0]]]},
+    {"kind": "rat", "vars": [[0.0, 0.0, 3.0, 4.0], [1.0, 2.0]],
+     "tree": ["l2", 2, ["var", 0]]},
+    # safe_power: the Jacobian defect repaired in 7cefac836 (power -1 at 2.0 gave -4)
+    {"kind": "sp", "x": [2.0, 0.5, 0.0, -1.5], "power": -1, "int_type": True, "zero_val": 7.0, "tol": 1e-8},
+    {"kind": "sp", "x": [2.0, 0.5, 0.0625, 3.0], "power": 0.5, "int_type": False, "zero_val": 1.0, "tol": 0.125},
+    {"kind": "trans", "vars": [[2.0, 0.5, -1.5]],
+     "tree": ["mul", ["fun", "safe_power", [3, 0.0, 1e-8, "int"], ["var", 0]], ["var", 0]]},
+    {"kind": "set", "vars": [[1.0, 2.0, 3.0], [4.0, 5.0, 6.0]], "a": ["mul", ["var", 0], ["var", 1]],
+     "b": ["slice", ["idx", [2, 0]], ["var", 1]], "key": ["idx", [0, 2]]},
     # transcendental composition
     {"kind": "trans", "vars": [[0.5, 1.25], [2.0, 0.75]],
      "tree": ["pow", ["var", 1], ["fun", "sin", None, ["var", 0]]]},
@@ -765,7 +914,7 @@ def emit(t, sizes):
 # ----------------------------------------------------------------------------------------
 TIE_B_PREAMBLE = """From Coq Require Import Reals ZArith List Lra.
 From Interval Require Import Tactic.
-From PP Require Import Model.C01 Model.C01R Proofs.C01.
+From PP Require Import Model.C01 Model.C01R Model.C01X Proofs.C01 Proofs.C01_fun.
 Import ListNotations.
 Open Scope R_scope.
 (* expose the real-number expression the model's definitions denote, then let the
@@ -779,9 +928,10 @@ Ltac unf_all :=
        ROps o0 o1 oadd osub omul odiv oopp opowz orpow oofZ oltb oprim opi primR
        fst snd].
 Ltac tie_b :=
+  unfold d_safe_power, sp_val, sp_fac; rewrite ?np_abs_Rabs;
   unf_all; unfold acoshR, atanhR, arcsinh, tanh, sinh, cosh;
   rewrite ?acos_asin by lra; rewrite ?asin_atan by lra; unfold Rsqr;
-  repeat (rewrite ltbR_true by interval); cbv beta iota;
+  repeat first [rewrite ltbR_true by interval | rewrite ltbR_ge by interval]; cbv beta iota;
   interval.
 """
 
@@ -869,10 +1019,25 @@ def tie_b_points(rng, per):
         out.append((f"[{c}]**{y}", f"fst (d_rpow_k ROps ({rlit(y)}, 1) {rlit(c)})", float(r.val[0]),
                     f"snd (d_rpow_k ROps ({rlit(y)}, 1) {rlit(c)})", float(r.jac.toarray()[0, 0]), True))
 
+    # safe_power with real and integer powers, above and below the switch
+    for _ in range(per):
+        tol = rng.choice([Fraction(1, 8), Fraction(1, 2), Fraction(1, 10 ** 8)])
+        zv = rng.choice([0.0, 1.0, 0.75])
+        p = rng.choice([0.5, -0.5, 1.5, -1.0, 2.0, 3.0, -2.0])
+        x = dy(rng, 0.0625, 4, 16)
+        if abs(x - float(tol)) < MARGIN:
+            x += 0.25
+        a1 = pp.ad.AdArray(np.array([x]), sps.identity(1, format="csr"))
+        r = F.safe_power(p, zv, float(tol), a1)
+        pe = f"(PZ ({int(p)}))" if p == int(p) else f"(PR {rlit(p)})"
+        t = f"d_safe_power ROps {pe} {rlit(zv)} {rlit(tol)} ({rlit(x)}, 1)"
+        out.append((f"safe_power({p},{zv},{float(tol)})({x})", f"fst ({t})", float(r.val[0]),
+                    f"snd ({t})", float(r.jac.toarray()[0, 0]), True))
+
     # l2_norm blocks, dim 2 and 3
     for _ in range(per):
         dim = rng.choice([2, 3])
-        blk = [dy(rng, -3, 3, 8, nonzero=True) for _ in range(dim)]
+        blk = [dy(rng, -3, 3, 8, nonzero=True) if rng.random() < 0.65 else 0.0 for _ in range(dim)]
         a = pp.ad.AdArray(np.array(blk), sps.identity(dim, format="csr"))
         r = F.l2_norm(dim, a)
         J = r.jac.toarray()
@@ -885,6 +1050,11 @@ def tie_b_points(rng, per):
 
 def run_tie_b(seed, tier):
     """Generate and check the Interval goal files.  Returns (ok, log, stats)."""
+    # the goal files import Proofs/C01.vo: build it first (regenerate runs before the
+    # driver's own proof step)
+    rc, mlog, _ = core.make_targets(["Proofs/C01_fun.vo", "Model/C01X.vo"])
+    if rc != 0:
+        return False, "make Proofs/C01_fun.vo failed:\n" + mlog[-2000:], {}
     rng = random.Random(seed * 7919 + 17)
     per = 5 if tier == "quick" else 25
     pts = tie_b_points(rng, per)
@@ -937,7 +1107,7 @@ class C01(Prop):
     id = "C01"
     props_file = "Props/C01.v"
     preamble = ("From Coq Require Import List ZArith QArith.\nImport ListNotations.\n"
-                "From PP Require Import Model.C01.\nOpen Scope Q_scope.\n")
+                "From PP Require Import Model.C01 Model.C01Q Model.C01X.\nOpen Scope Q_scope.\n")
     n_cases = (400, 6000)
     design_ref = "DESIGN.md §5 C01 (pragmatic version: hand-transcribed rule table instead of the ast translator)"
     technique = ("Coq proof (Coquelicot is_derive: per-rule derivative lemmas + induction over "
@@ -952,7 +1122,8 @@ class C01(Prop):
         "sinh cosh tanh arcsinh arccosh arctanh heaviside heaviside_smooth characteristic_function "
         "l2_norm maximum, to any depth, every point inside the smooth domain of the rules used and "
         "every direction v, the rule table's derivative is the derivative of the plain evaluation "
-        "along v), plus per-rule theorems.  The table is tied to the code on every run: (a) random "
+        "along v), C01_jacobian_linear / C01_jacobian_matrix (the derivative part is linear in v: "
+        "a Jacobian matrix), C01_rule_safe_power, C01_setitem_rows, plus per-rule theorems.  The table is tied to the code on every run: (a) random "
         "trees of the rational fragment are built on real AdArrays and Coq recomputes val and the "
         "dense jac with the same definitions over Q; (b) for every transcendental rule the factor "
         "the implementation applied and the value are checked against the real-number instance of "
@@ -970,9 +1141,16 @@ class C01(Prop):
         "for arccosh, cos x = 0 for tan, x=0 for abs/heaviside, |x|=tol for characteristic_function, "
         "ties of maximum, l2_norm blocks with norm <= 1e-12 (where the code substitutes 1).  Not "
         "proved: IEEE rounding; scipy's sparse product and numpy indexing themselves (modelled as exact "
-        "finite sums / selection); __setitem__, safe_power, RegularizedHeaviside (not in the table; "
-        "safe_power is outside the property's list).  The Jacobian theorem is stated per direction "
-        "(entry (i,j) = partial derivative); Frechet differentiability is not stated.")
+        "finite sums / selection); RegularizedHeaviside (its Jacobian is by design that of a different, "
+        "regularised function); a[key] = number/ndarray (keeps the old Jacobian rows by design, only "
+        "a[key] = AdArray is modelled).  safe_power and a[key] = AdArray are stand-alone rules "
+        "(C01_rule_safe_power, C01_setitem_rows) outside the tree language of the composition theorem; "
+        "trees containing safe_power are covered by the oracle and by Interval instances.  The "
+        "Jacobian theorem is per direction plus linearity in the direction (C01_jacobian_linear, "
+        "C01_jacobian_matrix: derivative along any finite combination of directions = Jacobian row "
+        "times coefficients); Frechet differentiability (uniform o(|h|)) is not stated.  The Q "
+        "instance executed in the tie and the R instance of the theorems are the same polymorphic "
+        "definitions; a transfer lemma Q->R is not proved.")
     rule = ("70% trees of the rational fragment (+ - * /, integer **, neg, scalar/int/array operands, all "
             "reflected variants, sparse left products (general dyadic / integer matrices and 0/1 selection, "
             "summation, stored-entries==rows-but-not-a-restriction matrices; wide/square/tall, empty rows, "
@@ -980,6 +1158,10 @@ class C01(Prop):
             "-> Coq tie (a) + oracle; 30% trees that also contain transcendental functions, real powers, "
             "AdArray**AdArray, c**AdArray, l2_norm -> oracle; depth <= 4 (quick) / 5 (thorough), 1-3 "
             "variables of size 1-4, dyadic data; a directed list of corner trees is always included; "
+            "12% of the rational trees are l2_norm(dim 2/3) on blocks with exact zero components, "
+            "axis-aligned, Pythagorean and all-zero blocks (executed exactly over Q); 5% safe_power "
+            "vectors (entries above/below the switch and exactly 0; integer powers to the Coq tie) and "
+            "3% a[key] = AdArray row assignments (Coq tie on the row semantics + aliasing probe); "
             "points are rejected unless every node is inside its smooth domain with margin 0.05 "
             "(decided by an independent float evaluation); non-trivial = at least 3 nodes")
     trusted = [
@@ -1015,10 +1197,44 @@ class C01(Prop):
         for c in DIRECTED:
             yield c
         for i in range(max(0, n - len(DIRECTED))):
-            kind = "rat" if rng.random() < 0.7 else "trans"
-            yield gen_case(rng, kind, tier)
+            u = rng.random()
+            if u < 0.05:
+                yield gen_sp_case(rng)
+            elif u < 0.08:
+                yield gen_set_case(rng)
+            else:
+                kind = "rat" if rng.random() < 0.7 else "trans"
+                yield gen_case(rng, kind, tier)
+
+    @staticmethod
+    def _dense(ad):
+        J = ad.jac.toarray() if hasattr(ad.jac, "toarray") else np.asarray(ad.jac)
+        return {"val": [float(v) for v in ad.val],
+                "jac": [[float(v) for v in row] for row in np.atleast_2d(J)]}
 
     def run_impl(self, case):
+        if case["kind"] == "sp":
+            x = np.array(case["x"], dtype=float)
+            pw = case["power"]
+            pw = int(pw) if (float(pw) == int(pw) and case.get("int_type")) else float(pw)
+            a = pp.ad.AdArray(x.copy(), sps.identity(x.size, format="csr"))
+            r = F.safe_power(pw, float(case["zero_val"]), float(case["tol"]), a)
+            out = self._dense(r)
+            out["plain"] = [float(v) for v in F.safe_power(pw, float(case["zero_val"]),
+                                                           float(case["tol"]), x.copy())]
+            return out
+        if case["kind"] == "set":
+            X = [np.array(v, dtype=float) for v in case["vars"]]
+            V = pp.ad.initAdArrays(X)
+            A = build(case["a"], V).copy()
+            B = build(case["b"], V)
+            before, bb = self._dense(A), self._dense(B)
+            bval = B.val.copy()
+            A[_key(case["key"])] = B
+            B.val[:] = 977.0                  # aliasing probe: the result must not share b
+            after = self._dense(A)
+            B.val[:] = bval
+            return {"a": before, "b": bb, "res": after, "res_again": self._dense(A)}
         X = [np.array(v, dtype=float) for v in case["vars"]]
         V = pp.ad.initAdArrays(X)
         r = build(case["tree"], V)
@@ -1029,7 +1245,55 @@ class C01(Prop):
                 "jac": [[float(v) for v in row] for row in np.atleast_2d(J)],
                 "plain": [float(v) for v in np.atleast_1d(rp)]}
 
+    def _oracle_sp(self, case, res):
+        pw, zv, tol = float(case["power"]), float(case["zero_val"]), float(case["tol"])
+        xs = case["x"]
+        if len(res["val"]) != len(xs) or len(res["jac"]) != len(xs):
+            return "safe_power changed the array length"
+        for i, x in enumerate(xs):
+            if abs(abs(x) - tol) < 1e-12 and not (x == 0.0):
+                continue                                   # on the switch
+            xm = mp.mpf(x)
+            if abs(x) > tol:
+                if pw != int(pw) and x <= 0:
+                    continue
+                if pw <= 0 and x == 0:
+                    continue
+                val = xm ** (int(pw) if pw == int(pw) else mp.mpf(pw))
+                der = mp.mpf(pw) * xm ** ((int(pw) - 1) if pw == int(pw) else mp.mpf(pw) - 1)
+            else:
+                val, der = mp.mpf(zv), mp.mpf(0)
+            if abs(mp.mpf(res["val"][i]) - val) > mp.mpf(1e-9) * (1 + abs(val)):
+                return f"safe_power value[{i}]={res['val'][i]!r}, expected {mp.nstr(val, 15)}"
+            if abs(res["val"][i] - res["plain"][i]) > 1e-12 * (1 + abs(res["plain"][i])):
+                return f"safe_power value[{i}] differs between AdArray and ndarray input"
+            for j, g in enumerate(res["jac"][i]):
+                want = der if j == i else mp.mpf(0)
+                if abs(mp.mpf(g) - want) > mp.mpf(1e-9) * (1 + abs(want)):
+                    return (f"safe_power(power={case['power']}, zero_val={zv}, tol={tol}) at "
+                            f"x={x}: jac[{i}][{j}]={g!r}, derivative is {mp.nstr(want, 15)}")
+        return None
+
+    def _oracle_set(self, case, res):
+        n = len(res["a"]["val"])
+        idx = resolve_idx(case["key"], n)
+        if res["res"] != res["res_again"]:
+            return "a[key] = b left the result aliased to b (changes when b is overwritten)"
+        for i in range(n):
+            ks = [k for k, j in enumerate(idx) if j == i]
+            if ks:
+                want = (res["b"]["val"][ks[-1]], res["b"]["jac"][ks[-1]])
+            else:
+                want = (res["a"]["val"][i], res["a"]["jac"][i])
+            if (res["res"]["val"][i], res["res"]["jac"][i]) != want:
+                return f"row {i} after a[key] = b is {res['res']['val'][i]}, {res['res']['jac'][i]}; expected {want}"
+        return None
+
     def oracle(self, case, res):
+        if case["kind"] == "sp":
+            return self._oracle_sp(case, res)
+        if case["kind"] == "set":
+            return self._oracle_set(case, res)
         tree, X = case["tree"], case["vars"]
         if not in_domain(tree, X):
             return None          # the property speaks about the smooth domain only
@@ -1074,6 +1338,26 @@ class C01(Prop):
         return None
 
     def coq_case(self, case, res):
+        if case["kind"] == "sp":
+            pw = float(case["power"])
+            if pw != int(pw):
+                return None
+            n = len(case["x"])
+            flat = res["val"] + [v for row in res["jac"] for v in row]
+            if not all(math.isfinite(v) for v in flat) or len(res["jac"]) != n:
+                return "false"
+            if any(res["jac"][i][j] != 0 for i in range(n) for j in range(n) if i != j):
+                return "false"
+            diag = [res["jac"][i][i] for i in range(n)]
+            return (f"agree_sp (PZ {cz(int(pw))}) {cq(case['zero_val'])} {cq(case['tol'])} "
+                    f"{clist(case['x'], cq)} {clist(res['val'], cq)} {clist(diag, cq)}")
+        if case["kind"] == "set":
+            def rows(d):
+                return clist(list(zip(d["val"], d["jac"])),
+                             lambda vr: f"({cq(vr[0])}, {clist(vr[1], cq)})")
+            idx = resolve_idx(case["key"], len(res["a"]["val"]))
+            return (f"agree_set {clist(idx, lambda j: f'{j}%nat')} {rows(res['a'])} "
+                    f"{rows(res['b'])} {rows(res['res'])}")
         if case["kind"] != "rat":
             return None
         flat = res["val"] + [v for row in res["jac"] for v in row]
@@ -1084,15 +1368,19 @@ class C01(Prop):
         xs = clist(case["vars"], lambda x: clist(x, cq))
         val = clist(res["val"], cq)
         jac = clist(res["jac"], lambda row: clist(row, cq))
-        return f"agree {e} {xs} {val} {jac}"
+        return f"agreeS {e} {xs} {val} {jac}"
 
     def coq_diag(self, case, res):
+        if case["kind"] in ("sp", "set"):
+            return None
         sizes = [len(x) for x in case["vars"]]
         e, n = emit(case["tree"], sizes)
         xs = clist(case["vars"], lambda x: clist(x, cq))
-        return f"model_out {e} {xs} {n}%nat"
+        return f"model_outS {e} {xs} {n}%nat"
 
     def nontrivial(self, case, res):
+        if case["kind"] in ("sp", "set"):
+            return True
         return sum(1 for _ in subtrees(case["tree"])) >= 3
 
     def finding_key(self, case, res, why):
@@ -1100,6 +1388,8 @@ class C01(Prop):
 
     def shrink(self, case, still_fails):
         """Failing sub-trees first, then splice out single elementwise nodes."""
+        if case["kind"] in ("sp", "set"):
+            return case
         cur = case
 
         def spliced(t):
@@ -1144,8 +1434,10 @@ class C01(Prop):
         t0 = time.time()
         n = 0
         while time.time() - t0 < budget_s:
-            for c in DIRECTED + [gen_case(rng, rng.choice(["rat", "trans", "trans"]), "thorough")
-                                 for _ in range(100)]:
+            for c in DIRECTED + [gen_sp_case(rng) for _ in range(15)] + \
+                    [gen_set_case(rng) for _ in range(5)] + \
+                    [gen_case(rng, rng.choice(["rat", "trans", "trans"]), "thorough")
+                     for _ in range(100)]:
                 n += 1
                 try:
                     res = self.run_impl(c)
